@@ -62,7 +62,7 @@ type c05cCase struct {
 }
 
 // c05cRun: returns the number of secret-store calls the activation made and whether C got A's announcement.
-func c05cRun(t *testing.T, w *vWorld, id int, injectAt int64) (calls int64, sentToC bool, sentToB bool) {
+func c05cRun(t *testing.T, w *vWorld, id int, injectAt int64) (calls int64, sentToC bool, sentToB bool, sentToD bool) {
 	g := vDetGroup(w.seed, fmt.Sprintf("c05c-%d", id))
 	mk := func(acct string) (*vDevice, *GroupContext) {
 		d := w.newDevice(acct, fmt.Sprintf("w%d", id))
@@ -128,12 +128,17 @@ func c05cRun(t *testing.T, w *vWorld, id int, injectAt int64) (calls int64, sent
 			break
 		}
 		if time.Now().After(deadline) {
-			panic("HARNESS: the activated group context did not answer a member that joined after activation within 60s")
+			// the activated context never answers a member that joined after activation: reported by the caller
+			for _, gc := range []*GroupContext{gcA, gcB, gcC, gcD} {
+				_ = gc.Close()
+			}
+			return calls, false, false, false
 		}
 		time.Sleep(2 * time.Millisecond)
 	}
 	sentToC, _ = idx.areSecretsAlreadySent(gcC.MemberPubKey())
 	sentToB, _ = idx.areSecretsAlreadySent(gcB.MemberPubKey())
+	sentToD = true
 	for _, gc := range []*GroupContext{gcA, gcB, gcC, gcD} {
 		_ = gc.Close()
 	}
@@ -153,7 +158,7 @@ func TestVerifC05c(t *testing.T) {
 	w := newVWorld(t, vrep.Seed())
 	defer w.close()
 	// dry run: how many secret-store calls does the activation make?
-	calls, _, _ := c05cRun(t, w, 0, -1)
+	calls, _, _, _ := c05cRun(t, w, 0, -1)
 	rep.Set("secret_store_calls_during_activation", calls)
 	id := 0
 	points := []int64{0, -1}
@@ -162,7 +167,7 @@ func TestVerifC05c(t *testing.T) {
 	}
 	for _, k := range points {
 		id++
-		_, toC, toB := c05cRun(t, w, id, k)
+		_, toC, toB, toD := c05cRun(t, w, id, k)
 		where := "during"
 		if k == 0 {
 			where = "before"
@@ -171,6 +176,10 @@ func TestVerifC05c(t *testing.T) {
 		}
 		rep.Eval(fmt.Sprintf("activation-window/arrival-%s/announced-to-joining-member=%v/to-existing-member=%v", where, toC, toB))
 		rep.AddTransitions(1)
+		if !toD {
+			rep.Violation("C05/member-joining-after-activation-gets-no-chain-key", fmt.Sprintf("member D's device entry arrives after A's activation returned (C's arrival point %d): A publishes no chain-key announcement for D within 60s", k), c05cCase{k})
+			break
+		}
 		if !toC {
 			rep.Violation("C05/member-joining-during-activation-gets-no-chain-key", fmt.Sprintf("member C's device entry arrives at secret-store call %d of %d of A's activation (0 = before, -1 = after): A never publishes a chain-key announcement for C although its event loop has handled a later entry", k, calls), c05cCase{k})
 		}
